@@ -27,43 +27,78 @@ pub fn ref_source(text: &str, ops: &[Op]) -> Vec<u8> {
   out
 }
 
-fn real_source(text: &str, ops: &[Op]) -> Result<Vec<u8>, String> {
+fn apply(s: &mut ReplaceSource<RawStringSource>, o: &Op) {
+  if o.enforce == 1 && o.observe & 8 == 0 {
+    if o.start == o.end && o.observe & 16 != 0 { s.insert(o.start, &o.content, None); } else { s.replace(o.start, o.end, &o.content, None); }
+  } else if o.start == o.end && o.observe & 16 != 0 { s.insert_with_enforce(o.start, &o.content, None, enf(o.enforce)); }
+  else { s.replace_with_enforce(o.start, o.end, &o.content, None, enf(o.enforce)); }
+}
+fn views(s: &ReplaceSource<RawStringSource>) -> Vec<u8> {
+  let src = s.source().as_bytes().to_vec();
+  // the other content views must agree with source() (rope() renders to it, size() is its length, buffer() its bytes)
+  let rope = s.rope().to_string().into_bytes();
+  if rope != src { return [b"<rope() differs from source(): ".to_vec(), rope, b">".to_vec()].concat(); }
+  if s.size() != src.len() { return b"<size() differs from source().len()>".to_vec(); }
+  if s.buffer().as_ref() != &src[..] { return b"<buffer() differs from source()>".to_vec(); }
+  src
+}
+/// runs the history on the real crate; besides the value itself a CLONE is taken at the first observer #5/#7, and
+/// from then on calls with bit 32 set in `observe` go to the clone.  Returns (text of the value, text of the clone).
+fn real_source(text: &str, ops: &[Op]) -> Result<(Vec<u8>, Option<Vec<u8>>), String> {
   let text = text.to_string();
   let ops = ops.to_vec();
   panic::catch_unwind(move || {
     let mut s = ReplaceSource::new(RawStringSource::from(text));
+    let mut t: Option<ReplaceSource<RawStringSource>> = None;
     for o in &ops {
-      if o.enforce == 1 && o.observe & 8 == 0 {
-        if o.start == o.end && o.observe & 16 != 0 { s.insert(o.start, &o.content, None); } else { s.replace(o.start, o.end, &o.content, None); }
-      } else if o.start == o.end && o.observe & 16 != 0 { s.insert_with_enforce(o.start, &o.content, None, enf(o.enforce)); }
-      else { s.replace_with_enforce(o.start, o.end, &o.content, None, enf(o.enforce)); }
-      // observers between mutating calls: must not influence the final text
+      let on_clone = t.is_some() && o.observe & 32 != 0;
+      if on_clone { apply(t.as_mut().unwrap(), o); } else { apply(&mut s, o); }
+      let cur: &ReplaceSource<RawStringSource> = if on_clone { t.as_ref().unwrap() } else { &s };
+      // observers between mutating calls: must not influence any later answer
       match o.observe & 7 {
-        1 => { let _ = s.source(); }
-        2 => { let _ = s.size(); }
-        3 => { let _ = s.map(&MapOptions::default()); }
-        4 => { use std::hash::{Hash, Hasher}; let mut h = std::collections::hash_map::DefaultHasher::new(); s.hash(&mut h); let _ = h.finish(); }
-        5 => { s = s.clone(); }
-        6 => { let c = s.clone(); let _ = c.source(); }
-        7 => { let _ = s.source(); s = s.clone(); }
+        1 => { let _ = cur.source(); }
+        2 => { let _ = cur.size(); }
+        3 => { let _ = cur.map(&MapOptions::default()); }
+        4 => { use std::hash::{Hash, Hasher}; let mut h = std::collections::hash_map::DefaultHasher::new(); cur.hash(&mut h); let _ = h.finish(); }
+        5 => { if t.is_none() { t = Some(s.clone()); } else { s = s.clone(); } }
+        6 => { let c = cur.clone(); let _ = c.source(); }
+        7 => { let _ = s.source(); if t.is_none() { t = Some(s.clone()); } else { s = s.clone(); } }
         _ => {}
       }
     }
-    let src = s.source().as_bytes().to_vec();
-    // the other content views must agree with source() (rope() renders to it, size() is its length, buffer() its bytes)
-    let rope = s.rope().to_string().into_bytes();
-    if rope != src { return [b"<rope() differs from source(): ".to_vec(), rope, b">".to_vec()].concat(); }
-    if s.size() != src.len() { return b"<size() differs from source().len()>".to_vec(); }
-    if s.buffer().as_ref() != &src[..] { return b"<buffer() differs from source()>".to_vec(); }
-    src
+    // observe the value, then the clone, then the value again: answers must not move
+    let first = views(&s);
+    let tc = t.as_ref().map(views);
+    let again = views(&s);
+    if again != first { return (b"<source() of an unchanged value moved after its clone was observed>".to_vec(), tc); }
+    (first, tc)
   }).map_err(|e| format!("panic: {}", e.downcast_ref::<String>().cloned().or_else(|| e.downcast_ref::<&str>().map(|s| s.to_string())).unwrap_or_default()))
+}
+/// the histories of the value and of its clone, as the reference model sees them
+fn split_history(ops: &[Op]) -> (Vec<Op>, Option<Vec<Op>>) {
+  let mut a: Vec<Op> = vec![];
+  let mut b: Option<Vec<Op>> = None;
+  for o in ops {
+    let on_clone = b.is_some() && o.observe & 32 != 0;
+    if on_clone { b.as_mut().unwrap().push(o.clone()); } else { a.push(o.clone()); }
+    if b.is_none() && matches!(o.observe & 7, 5 | 7) { b = Some(a.clone()); }
+  }
+  (a, b)
 }
 
 fn check(text: &str, ops: &[Op]) -> Option<String> {
-  let want = ref_source(text, ops);
+  let (ha, hb) = split_history(ops);
+  let want = ref_source(text, &ha);
+  let want_clone = hb.as_ref().map(|h| ref_source(text, h));
   match real_source(text, ops) {
     Err(p) => Some(format!("real ReplaceSource panicked ({p}); the model gives {:?}", String::from_utf8_lossy(&want))),
-    Ok(got) => if got != want { Some(format!("source() = {:?}, the reference model gives {:?}", String::from_utf8_lossy(&got), String::from_utf8_lossy(&want))) } else { None },
+    Ok((got, got_clone)) => {
+      if got != want { return Some(format!("source() = {:?}, the reference model gives {:?}", String::from_utf8_lossy(&got), String::from_utf8_lossy(&want))); }
+      if let (Some(g), Some(w)) = (got_clone, want_clone) {
+        if g != w { return Some(format!("source() of the CLONE = {:?}, the reference model gives {:?}", String::from_utf8_lossy(&g), String::from_utf8_lossy(&w))); }
+      }
+      None
+    }
   }
 }
 
@@ -116,7 +151,7 @@ pub fn search(args: &[String]) -> i32 {
       let a = r.pick(&bounds); let b = r.pick(&bounds);
       let (s, e) = if a <= b { (a, b) } else { (b, a) };
       let (s, e) = if r.below(3) == 0 { (s, s) } else { (s, e) };
-      ops.push(Op { start: s, end: e, enforce: r.below(3) as u8, content: r.pick(&["", "X", "YZ", "\n", "\u{e9}"]).to_string(), observe: r.below(32) as u8 });
+      ops.push(Op { start: s, end: e, enforce: r.below(3) as u8, content: r.pick(&["", "X", "YZ", "\n", "\u{e9}"]).to_string(), observe: r.below(64) as u8 });
     }
     tried += 1;
     if let Some(d) = check(&text, &ops) { found = Some((text, ops, d)); break; }
